@@ -217,16 +217,23 @@ def sameLin (api : Bool) (a0 b0 : LinModel Bits) (t1 t2 : String) : Sexp :=
     else if (a.vars.filter fun v => !(usedVars a).contains v).any (fun v => !b.vars.contains v) then
       viol "fixpoint-unused-variable-dropped" []
     else if hasNegZero a0 then viol "fixpoint-negative-zero-bound" []
+    else if
+            (a0.domain.zip b0.domain).any (fun (da, db) => Wire.enc (α := Bits) (match da.ty with | .nnreal x _ => x | .real x _ => x | _ => ⟨0⟩)
+                 != Wire.enc (α := Bits) (match db.ty with | .nnreal x _ => x | .real x _ => x | _ => ⟨0⟩)
+              || Wire.enc (α := Bits) (match da.ty with | .nnreal _ y => y | .real _ y => y | _ => ⟨0⟩)
+                 != Wire.enc (α := Bits) (match db.ty with | .nnreal _ y => y | .real _ y => y | _ => ⟨0⟩)) then
+      viol "derived-domain-differs-on-recompile" [.atom "display-not-fixpoint", .atom "within-1e-9"]
     else viol "display-not-fixpoint" []
   | some kind =>
     let fb := fold b
-    let fa := fold a
     -- feasibility agrees, or the second compilation's tighter domains expose an infeasibility
     let feasOk (f : Folded) : Bool := f.infeasible == fb.infeasible || fb.infeasible
     let rel (f : Folded) : RangeRel := if fb.infeasible then .same else rangeRel f fb
-    if coreEqual fa fb && feasOk fa && rel fa != .other then
-      if api then
-        if fb.infeasible || rangesInside fa fb then app "ok" [.atom "first-compilation-normalised"] else viol kind []
+    let explained (f : Folded) : Bool :=
+      coreEqual f fb && feasOk f && (if api then fb.infeasible || rangesInside f fb else rel f != .other)
+    let fa := fold a
+    if explained fa then
+      if api then app "ok" [.atom "first-compilation-normalised"]
       else
         let rowsChanged := (compare .ignore a b).isSome
         match rel fa with
@@ -235,9 +242,11 @@ def sameLin (api : Bool) (a0 b0 : LinModel Bits) (t1 t2 : String) : Sexp :=
         | _ => viol "derived-domain-differs-on-recompile"
                        (.atom kind :: (if rowsChanged then [.atom "and-trivial-rows-renormalised"] else []))
     else
-      -- the sign of a tiny negative coefficient is not shown (domains derived from the changed rows are not comparable)
-      let fs := fold (applySignLoss a)
-      if coreEqual fs fb && feasOk fs && (compare .ignore (applySignLoss a) a).isSome then
+      -- the sign of a tiny negative coefficient is not shown; domains derived from the changed rows
+      -- are only comparable when `b` was compiled from exactly those rows (API case)
+      let sa := applySignLoss a
+      let fs := fold sa
+      if (compare .ignore sa a).isSome && coreEqual fs fb && feasOk fs && (!api || fb.infeasible || rangesInside fs fb) then
         viol "sign-lost-below-display-tolerance" [.atom kind]
       else viol kind []
 
